@@ -46,6 +46,11 @@ class _OldRewriter(ast.NodeTransformer):
       inner = self.visit(node.args[0])
       self.inside -= 1
       return inner
+    if isinstance(node.func, ast.Name) and node.func.id == 'implies' and len(node.args) == 2:
+      # short-circuit natively: the consequent may be undefined (IndexError, KeyError) when
+      # the antecedent is false; in the SMT reading all spec operations are total
+      a, b = self.visit(node.args[0]), self.visit(node.args[1])
+      return ast.copy_location(ast.BoolOp(op=ast.Or(), values=[ast.UnaryOp(op=ast.Not(), operand=a), b]), node)
     return self.generic_visit(node)
 
   def visit_Name(self, node):
@@ -194,4 +199,143 @@ def bounded_search(spec, bound=None, max_cases=20000, first_only=True):
     out['cases'] = n
   except Exception:
     out['error'] = traceback.format_exc()[-1500:]
+  return out
+
+
+# ---- counter-model concretisation (CE replay) ------------------------------------------------
+class ModelReader:
+  """Turns a z3 model into native abstract values, sort by sort."""
+
+  def __init__(self, model):
+    import z3
+    self.z3 = z3
+    self.m = model
+    self.opaque_maps = {}
+
+  def ev(self, t):
+    return self.m.eval(t, model_completion=True)
+
+  def opaque(self, sort, t):
+    z3 = self.z3
+    v = self.ev(t)
+    mp = self.opaque_maps.setdefault(sort.name, {})
+    key = v.sexpr()
+    if key in mp:
+      return mp[key]
+    for py, c in sort._lits.items():
+      if self.ev(c).sexpr() == key:
+        mp[key] = py
+        return py
+    used = set(mp.values()) | set(sort._lits.keys())
+    for cand in list(sort.universe or []) + [f'n{i}' for i in range(50)]:
+      if cand not in used:
+        mp[key] = cand
+        return cand
+
+  def read(self, sort, t):
+    z3 = self.z3
+    if isinstance(sort, BoolSort):
+      return z3.is_true(self.ev(t))
+    if isinstance(sort, IntSort):
+      return self.ev(t).as_long()
+    if isinstance(sort, RealSort):
+      v = self.ev(t)
+      return float(v.as_fraction()) if z3.is_rational_value(v) else float(v.approx(10).as_fraction())
+    if isinstance(sort, NoneSort):
+      return None
+    if isinstance(sort, Opaque):
+      return self.opaque(sort, t)
+    if isinstance(sort, StrSort):
+      return self.ev(t).as_string()
+    if isinstance(sort, SeqOf):
+      n = self.ev(sort.len(t)).as_long()
+      if n > 12:
+        raise ValueError('model sequence too long')
+      return tuple(self.read(sort.elem, sort.get(t, z3.IntVal(i))) for i in range(max(n, 0)))
+    if isinstance(sort, SetOf):
+      out = set()
+      for cand, val in self.candidates(sort.elem):
+        if z3.is_true(self.ev(z3.Select(t, cand))):
+          out.add(val)
+      return frozenset(out)
+    if isinstance(sort, MapOf):
+      ks = self.read(sort.keyseq, sort.keys(t))
+      out = {}
+      for cand, val in self.candidates(sort.key):
+        if z3.is_true(self.ev(sort.has(t, cand))):
+          out[val] = self.read(sort.val, sort.get(t, cand))
+      ordered = {k: out[k] for k in ks if k in out}
+      ordered.update(out)
+      return ordered
+    if isinstance(sort, Union):
+      for c in sort.ctors.values():
+        if z3.is_true(self.ev(sort.is_(c.name, t))):
+          return ADTVal(c.name, **{fn: self.read(sort.field_sort(c.name, fn), sort.acc(c.name, fn, t)) for fn, _ in c.fields})
+    if isinstance(sort, TupleOf):
+      raise ValueError('tuple sort in model')
+    raise ValueError(f'cannot read sort {sort}')
+
+  def candidates(self, elem):
+    z3 = self.z3
+    if isinstance(elem, Opaque):
+      out = []
+      try:
+        univ = self.m.get_universe(elem.z3()) or []
+      except Exception:
+        univ = []
+      for u in univ:
+        out.append((u, self.opaque(elem, u)))
+      for py, c in elem._lits.items():
+        out.append((c, py))
+      return out
+    if isinstance(elem, IntSort):
+      return [(z3.IntVal(i), i) for i in range(-2, 8)]
+    if isinstance(elem, BoolSort):
+      return [(z3.BoolVal(b), b) for b in (False, True)]
+    raise ValueError(f'cannot enumerate candidates of {elem}')
+
+
+def replay_model(spec, model, param_terms):
+  """Concretise the solver's counter-model and run the real function on it.
+  -> ('confirmed', Failure) | ('spurious', inputs) | ('unreadable', reason)"""
+  try:
+    rd = ModelReader(model)
+    abs_args = {}
+    for p, s in list(spec.params) + list(spec.free):
+      abs_args[p] = rd.read(s, param_terms[p].t)
+  except Exception as e:
+    return 'unreadable', repr(e)[:200]
+  if spec.native is None:
+    return 'unreadable', 'no native harness'
+  try:
+    h = spec.native
+    if h.setup:
+      h.setup()
+    env = native_env(spec, spec.enum_bound)
+    r = check_one(spec, h.get(), env, abs_args, h)
+  except Exception:
+    return 'unreadable', traceback.format_exc()[-300:]
+  if isinstance(r, Failure):
+    return 'confirmed', r
+  return 'spurious', {k: repr(v) for k, v in abs_args.items()}
+
+
+def size_bounds(sort, t, depth=2, seq_max=3):
+  """Constraints asking the solver for a *small* counter-model (only used to pick a model)."""
+  import z3
+  out = []
+  if isinstance(sort, IntSort):
+    out.append(z3.And(t >= -3, t <= 6))
+  elif isinstance(sort, SeqOf):
+    out.append(sort.len(t) <= seq_max)
+    if depth > 0:
+      for i in range(seq_max):
+        out.extend(size_bounds(sort.elem, sort.get(t, z3.IntVal(i)), depth - 1, seq_max))
+  elif isinstance(sort, MapOf):
+    out.append(sort.keyseq.len(sort.keys(t)) <= seq_max)
+  elif isinstance(sort, Union) and depth > 0:
+    for c in sort.ctors.values():
+      for fn, _ in c.fields:
+        for b in size_bounds(sort.field_sort(c.name, fn), sort.acc(c.name, fn, t), depth - 1, seq_max):
+          out.append(z3.Implies(sort.is_(c.name, t), b))
   return out
